@@ -74,9 +74,15 @@ Proof. exact c06_stbm. Qed.
 Example C06_nonvacuous : WF (init 4 5) /\ reg (abs (init 4 5)) = (0, 4).
 Proof. split; [apply WF_init; discriminate|reflexivity]. Qed.
 
+(* IL n then DL n on the same line: the region is what it was, except that the lines pushed past the bottom margin are lost *)
+Theorem C06_IL_then_DL : forall (a : astate) n t b r c, reg a = (t, b) -> t <= ay a <= b ->
+  a_grid (a_dl (a_il a n) n) r c = if (ay a <=? r) && (r <=? b) && (b <? r + hat n) then adc a else a_grid a r c.
+Proof. exact c06_il_then_dl. Qed.
+
 Print Assumptions C06_code_refines_spec.
 Print Assumptions C06_index_at_bottom_margin.
 Print Assumptions C06_reverse_index_at_top_margin.
 Print Assumptions C06_IL.
 Print Assumptions C06_DL.
 Print Assumptions C06_DECSTBM.
+Print Assumptions C06_IL_then_DL.
